@@ -333,7 +333,7 @@ func checkC12(c C12Case, o *h.Obs) *h.Fail {
 		}
 		return nil // totality and nil-on-error were checked above
 	}
-	bf, bbase, berr := new(big.Float).SetPrec(uint(4*len(c.S) + 64)).Parse(c.S, c.Base)
+	bf, bbase, berr := new(big.Float).SetPrec(uint(4*len(c.S)+64)).Parse(c.S, c.Base)
 	if (berr == nil) != (err == nil) {
 		return h.Failf("acceptance", "%s(%q, %d): decimal err=%v, math/big err=%v", c.Entry, c.S, c.Base, err, berr)
 	}
@@ -391,7 +391,7 @@ func checkC12Mixed(c C12Case, o *h.Obs, got h.Snap, err error, wantPrec uint) *h
 	if perr != nil {
 		return h.Failf("bad-case", "exponent %q", es)
 	}
-	bf, _, berr := new(big.Float).SetPrec(uint(4*len(mant) + 64)).Parse(mant, 0)
+	bf, _, berr := new(big.Float).SetPrec(uint(4*len(mant)+64)).Parse(mant, 0)
 	if berr != nil || bf.Acc() != big.Exact {
 		return h.Failf("INFRA-oracle", "math/big rejects the mantissa %q: %v", mant, berr)
 	}
